@@ -1,1 +1,100 @@
-// harness for rs/anda_db_hnsw/src/hnsw.rs (mounted by #[cfg(kani)] hook)
+// @module hnsw::verif_kani
+// Kani harnesses for rs/anda_db_hnsw/src/hnsw.rs — property C12: validate_loaded_node (what a loaded
+// node blob must satisfy before it joins the graph) and HnswConfig::validate / normalized.
+use super::*;
+include!("/verif/harness/common.rs");
+
+// @check id=C12 tier=quick cap=900 role=validate_loaded_node
+// @fns HnswIndex::validate_loaded_node
+// @bound node with 0..2 coordinates (any bf16 bit pattern), layer 0..2, 0..2 neighbour layers with 0..1 edge each (any bf16 distance bits); expected id, dimension (0..3) and max_layers symbolic
+// @stubs alloc::fmt::format -> String::new() (error messages only)
+#[kani::proof]
+#[kani::unwind(4)]
+#[kani::stub(alloc::fmt::format, fmt_stub)]
+fn c12_validate_loaded_node_iff_well_formed() {
+    let id: u64 = kani::any();
+    let expected: u64 = kani::any();
+    let layer: u8 = kani::any();
+    kani::assume(layer <= 2);
+    let max_layers: u8 = kani::any();
+    let dim: usize = kani::any();
+    kani::assume(dim <= 3);
+    let vlen: usize = kani::any();
+    kani::assume(vlen <= 2);
+    let vbits: [u16; 2] = kani::any();
+    let mut vector = Vec::with_capacity(2);
+    let mut i = 0;
+    while i < vlen {
+        vector.push(bf16::from_bits(vbits[i]));
+        i += 1;
+    }
+    let nl: usize = kani::any();
+    kani::assume(nl <= 2);
+    let ebits: [u16; 2] = kani::any();
+    let has_edge: [bool; 2] = kani::any();
+    let mut neighbors: Vec<SmallVec<[(u64, bf16); 64]>> = Vec::with_capacity(2);
+    let mut j = 0;
+    while j < nl {
+        let mut sv = SmallVec::new();
+        if has_edge[j] {
+            sv.push((7u64, bf16::from_bits(ebits[j])));
+        }
+        neighbors.push(sv);
+        j += 1;
+    }
+    let node = HnswNode { id, layer, vector, neighbors, version: 0 };
+    let r = HnswIndex::validate_loaded_node("n", expected, dim, max_layers, &node);
+    let fin = |b: u16| (b & 0x7f80) != 0x7f80;
+    let want = id == expected
+        && vlen == dim
+        && layer < max_layers
+        && nl == layer as usize + 1
+        && (vlen < 1 || fin(vbits[0]))
+        && (vlen < 2 || fin(vbits[1]))
+        && (nl < 1 || !has_edge[0] || fin(ebits[0]))
+        && (nl < 2 || !has_edge[1] || fin(ebits[1]));
+    assert!(r.is_ok() == want, "a loaded node is accepted iff id, dimension, layer and neighbour table are consistent and every coordinate and edge distance is finite");
+    kani::cover!(want && vlen == 2 && nl == 2, "accepted two-layer node");
+    kani::cover!(!want && id == expected && vlen == dim && layer < max_layers && nl == layer as usize + 1, "rejected for a non-finite value only");
+    std::mem::forget((r, node));
+}
+
+// @check id=C12 tier=quick cap=600 role=config_normalized_validates
+// @fns HnswConfig::normalized, HnswConfig::validate
+// @bound every numeric field symbolic at full width, scale_factor None or any f64 bit pattern
+// @stubs alloc::fmt::format -> String::new() (error messages only)
+#[kani::proof]
+#[kani::unwind(4)]
+#[kani::stub(alloc::fmt::format, fmt_stub)]
+fn c12_config_normalized_always_validates_and_validate_is_exact() {
+    let cfg = HnswConfig {
+        dimension: kani::any(),
+        max_layers: kani::any(),
+        max_connections: kani::any(),
+        ef_construction: kani::any(),
+        ef_search: kani::any(),
+        distance_metric: DistanceMetric::Euclidean,
+        scale_factor: if kani::any() { Some(kani::any()) } else { None },
+        select_neighbors_strategy: SelectNeighborsStrategy::Heuristic,
+        reconnect_on_delete: kani::any(),
+    };
+    let ok = cfg.validate("c");
+    let want = cfg.dimension >= 1 && cfg.dimension <= HnswConfig::MAX_DIMENSION
+        && cfg.max_layers >= 1 && cfg.max_layers <= 64
+        && cfg.max_connections >= 2 && cfg.max_connections <= 128
+        && cfg.ef_construction >= 1 && cfg.ef_construction <= 4096
+        && cfg.ef_search >= 1 && cfg.ef_search <= 4096
+        && match cfg.scale_factor { None => true, Some(s) => s.is_finite() && s > 0.0 };
+    assert!(ok.is_ok() == want, "validate accepts exactly the documented ranges");
+    let n = cfg.clone().normalized();
+    let nok = n.validate("c");
+    assert!(nok.is_ok(), "a normalized config always validates");
+    if want {
+        assert!(n.dimension == cfg.dimension && n.max_layers == cfg.max_layers && n.max_connections == cfg.max_connections
+            && n.ef_construction == cfg.ef_construction && n.ef_search == cfg.ef_search, "a valid config is left unchanged by normalization");
+    }
+    kani::cover!(want, "valid config");
+    kani::cover!(!want && cfg.dimension == 0, "zero dimension");
+    kani::cover!(matches!(cfg.scale_factor, Some(s) if s.is_nan()), "NaN scale factor");
+    std::mem::forget((ok, nok));
+}
